@@ -214,6 +214,8 @@ def _is_direct(f):
         return (f.__module__ or "").startswith(_DIRECT_MODULE_PREFIXES)
     if t is types.LambdaType:
         return True
+    if (getattr(t, "__module__", "") or "").startswith(_DIRECT_MODULE_PREFIXES) and callable(f):
+        return True  # instance with __call__ of an instrumented class (e.g. parser.time_parser)
     return False
 
 
